@@ -274,7 +274,7 @@ func C16(c *vlib.Ctx) {
 	c.Rule("generated egress policies (https_only/redirects/dns_rebind_protection x allow/deny lists of hosts, wildcards, IPs, CIDRs) are compiled by config.Compile and mapped exactly as `run` does; the real HTTPDeliverer runs with a recording RoundTripper and a scripted resolver against generated URLs (schemes, userinfo, ports, case, trailing dots, IP literals on both sides of every class boundary incl. IPv4-mapped, non-canonical numeric hosts) and redirect chains up to 12 hops. Every URL that reaches the transport must be allowed by an independent evaluator written from the statement; a policy denial must be ErrPolicyDenied with no transport call for that hop; through the PushDispatcher a denial must be dead-lettered policy_denied without a nack. distinct_nontrivial = distinct (first denying clause or 'allowed', hop position, redirects on/off) classes.")
 	c.Assume("the resolver answer is the one the policy check saw (re-resolution by the dialer is outside the statement)")
 	c.Assume("IPv4-mapped IPv6 CIDR rules are not generated (undocumented); IPv4-mapped URL hosts against IPv4 rules are")
-	n := c.N(24000, 400000)
+	n := c.N(24000, 6000000)
 	sent, denied := 0, 0
 	for i := 0; i < n; i++ {
 		r := vlib.Derive(c.Seed, "C16", i) // 8 URL chains per policy
